@@ -459,6 +459,27 @@ func genBodyCase(r *hx.Rand) caseT {
 		}
 		b.Pos = r.Intn(n + 1)
 	}
+	// WithAllErrors: next to value sources that fail as well, more often than not
+	c.AllErrors = r.Chance(1, 5) || (strings.HasSuffix(b.Via, "from") && len(c.Srcs) > 0 && r.Chance(1, 3))
+	if c.AllErrors && strings.HasSuffix(b.Via, "from") && len(c.Srcs) > 0 && r.Chance(2, 3) {
+		// every source fails: a value no numeric / bool leaf can hold in front of one value source, a body that
+		// cannot be decoded
+		i := r.Intn(len(c.Srcs))
+		for _, lf := range ct.Shapes[c.Srcs[i].Tag].Leaves {
+			if lf.Kind == "prim" && strings.ContainsAny(lf.Prim[:1], "iufb") {
+				c.Srcs[i].KV = append([][2]string{{lf.Keys[0], "x!"}}, c.Srcs[i].KV...)
+				break
+			}
+		}
+		if b.ReadFails == 2 {
+			b.ReadFails = 0
+		}
+		if b.Fmt == "j" {
+			b.Doc = hx.Pick(r, [][]byte{[]byte("{"), b.Doc[:len(b.Doc)/2], []byte(`{"zz":`), []byte("[]"), []byte(`"x"`)})
+		} else {
+			b.Doc = hx.Pick(r, [][]byte{[]byte("<r>"), b.Doc[:len(b.Doc)/2], []byte("<r></s>")})
+		}
+	}
 	if r.Chance(1, 2) {
 		// an earlier request through the same entry point; its reader may have failed
 		b.HasWarm = true
@@ -577,10 +598,13 @@ func runBody(ct *corpusType, c *caseT, doc []byte, fails int, dest any) (res any
 	}()
 	b := c.Body
 	o := append(c.Opts.options(), policyOptions(b)...)
+	if c.AllErrors {
+		o = append(o, binding.WithAllErrors())
+	}
 	rd := func() io.Reader { return newReader(doc, fails, b.Chunk) }
 	var bd *binding.Binder
 	if c.Binder {
-		k := fmt.Sprintf("%+v/%d/%d", c.Opts, b.Policy, b.Spell)
+		k := fmt.Sprintf("%+v/%d/%d/%v", c.Opts, b.Policy, b.Spell, c.AllErrors)
 		if bd = bodyBinders[k]; bd == nil {
 			var berr error
 			if bd, berr = binding.New(o...); berr != nil {
@@ -752,9 +776,14 @@ func writeKVs(l *hx.Line, s *srcT) {
 	}
 }
 
-func writeOutcome(l *hx.Line, st *hx.Stats, res any, err error, panicked bool) {
+func writeOutcome(l *hx.Line, st *hx.Stats, res any, err error, panicked bool, all bool) {
 	l.Sep()
 	switch {
+	case !panicked && err != nil && all:
+		writeAllErrors(l, err, true)
+		if st != nil {
+			st.Count("outcome_body_all_errors")
+		}
 	case panicked:
 		l.Tok("X")
 		if st != nil {
@@ -802,7 +831,7 @@ func emitBody(id string, c caseT, st *hx.Stats) string {
 	}
 	b := c.Body
 	md, ms, mm := c.Opts.effective()
-	l := hx.NewLine(id).Tok("J").Nat(md).Nat(ms).Nat(mm).Bool(c.Opts.CSV).Bool(c.Opts.BaseAuto).Nat(0)
+	l := hx.NewLine(id).Tok("J").Nat(md).Nat(ms).Nat(mm).Bool(c.Opts.CSV).Bool(c.Opts.BaseAuto).Nat(0).Bool(c.AllErrors)
 	ct.Node.tokens(l)
 	l.Tok(strings.TrimSpace(il.String()))
 	var srcs []*srcT
@@ -830,7 +859,7 @@ func emitBody(id string, c caseT, st *hx.Stats) string {
 		}()
 	}
 	res, err, panicked := runBody(ct, &c, b.Doc, b.ReadFails, mk())
-	writeOutcome(l, st, res, err, panicked)
+	writeOutcome(l, st, res, err, panicked, c.AllErrors)
 	if st != nil {
 		st.Case(in[len(id):], true)
 		st.Count("entry_J")
@@ -959,7 +988,7 @@ func emitHTTP(id string, c caseT, ct *corpusType, mk func() any, init string, st
 	}
 	writeTable(l, ct, append(append([]*srcT(nil), srcs...), form), nil)
 	in := l.String()
-	writeOutcome(l, st, res, err, panicked)
+	writeOutcome(l, st, res, err, panicked, false)
 	if st != nil {
 		st.Case(in[len(id):], true)
 		st.Count("entry_H")
@@ -975,6 +1004,23 @@ func emitHTTP(id string, c caseT, ct *corpusType, mk func() any, init string, st
 // the request holds now
 func fixedBodyCases() []caseT {
 	var out []caseT
+	// WithAllErrors over a value source and a body source that both fail: both are reported
+	func() {
+		for _, ct := range bodyTypes {
+			for _, tag := range []int{0, 1, 3, 4} {
+				for _, lf := range ct.Shapes[tag].Leaves {
+					if lf.Kind == "prim" && strings.ContainsAny(lf.Prim[:1], "iufb") && !lf.Nested {
+						for pos := 0; pos <= 1; pos++ {
+							out = append(out, caseT{T: ct.E.Name, Entry: "J", Opts: optsT{-1, -1, -1, false, false, nil}, NT: true, AllErrors: true,
+								Srcs: []srcCase{{Tag: tag, KV: [][2]string{{lf.Keys[0], "x!"}}}},
+								Body: &bodyCase{Fmt: "j", Via: "from", Doc: []byte(`{"zz":`), Pos: pos}})
+						}
+						return
+					}
+				}
+			}
+		}
+	}()
 	for _, ct := range bodyTypes {
 		rt := reflect.TypeOf(ct.E.New()).Elem()
 		var f *bodyField
